@@ -230,19 +230,20 @@ PROPS["C11"] = dict(
              dict(name="C11iters", src="vp/props/C11.cpp", defs=["VP_C11_PROGRAM=2"], maxlen=13 + 4*10),
              dict(name="C11containers", src="vp/props/C11m.cpp", maxlen=2 + 8*10),
              dict(name="C11assign", src="vp/props/C11.cpp", defs=["VP_C11_PROGRAM=3"], maxlen=13 + 4*10),
-             dict(name="C11compare", src="vp/props/C11.cpp", defs=["VP_C11_PROGRAM=4"], maxlen=13 + 4*10)],
+             dict(name="C11compare", src="vp/props/C11.cpp", defs=["VP_C11_PROGRAM=4"], maxlen=13 + 4*10),
+             dict(name="C11algorithms", src="vp/props/C11.cpp", defs=["VP_C11_PROGRAM=5"], maxlen=15 + 4*5)],
     quick=dict(cases=2500, floor=20000),
     thorough=dict(cases=30000, floor=200000, fuzz=dict(time=240)),
     level="exploration",
     level_text=("Differential/configuration testing: the generated programs of C01 (view algebra, all access paths), C02 (iterator, elements() and cursor laws) and the C04/C06 state machine "
-                "(value semantics, reextent, assign), of C05 (assignment through views; sources over the same pointer family or over raw pointers) and of C07 (equality and ordering; second operand over the same family or over raw pointers) are instantiated over two user-defined pointer types -- off_ptr (offset from an unrelated base, explicit construction only, no conversion to or "
+                "(value semantics, reextent, assign), of C05 (assignment through views; sources over the same pointer family or over raw pointers) and of C07 (equality and ordering; second operand over the same family or over raw pointers) and of C03 (standard algorithms on elements() and 1-D ranges; second ranges over the same family or over raw pointers) are instantiated over two user-defined pointer types -- off_ptr (offset from an unrelated base, explicit construction only, no conversion to or "
                 "from T*, T& references) reached through an allocator and through array_ref, and chk_ptr (block id + offset with provenance: every dereference is checked against the liveness and "
                 "bounds of its block, arithmetic across blocks is recorded). The C01 program is also run over raw pointers on the same input and the transcripts of observable results (sizes, "
                 "relative positions, values) must be identical; all programs keep their model oracles; chk_ptr must record no violation."),
     technique="differential testing of generated programs across pointer families (raw / offset / bounds-checking) with transcript equality and a checking pointer as oracle (rapidcheck + libFuzzer)",
     rule=("case = pointer family bit + the generated case of the replayed program (C01: up to 10 view operations; C02: up to 8; containers: up to 10 history records over 4 arrays of int, D in 1..3; C05: up to 6 view operations + assignment form + source layout; C07: operand triples of D in 1..3); "
           "non-trivial = as in the replayed program; distinct = hash of decoded case text"),
-    assumptions=COMMON_ASSUME + ["the C03 program (standard algorithms) is not replayed over fancy pointers", "allocators with fancy *references* (proxy references) are out of scope"],
+    assumptions=COMMON_ASSUME + ["the C03 program (standard algorithms) is replayed over fancy pointers on elements() ranges and 1-D begin()/end() ranges only: the value_type of a proxy-row iterator over a fancy pointer is an array over the pointer's default_allocator_type (std::allocator for the harness' pointers) and ordering operators between operands of different pointer families are not offered by the library, so sort & co. on proxy rows do not instantiate there", "allocators with fancy *references* (proxy references) are out of scope"],
 )
 
 PROPS["C20"] = dict(
